@@ -1,5 +1,6 @@
 // C16 — ONC-RPC/portmapper: replies correlated, framed, advertise the contacted endpoint.
 
+use crate::vf::shadow::{shadow_opt, with_shadow, Shadow};
 use proptest::prelude::*;
 use serde::{Deserialize, Serialize};
 use serde_json::{json, Value};
@@ -30,10 +31,20 @@ pub struct Case {
     /// IP / TCP header fields the responder is not documented to look at
     #[serde(default)]
     pub tweak: Option<IpTweak>,
+    /// sibling traffic sent before every frame of the case (vf/shadow.rs)
+    #[serde(default)]
+    pub shadow: Option<Shadow>,
 }
 
 pub fn case_strategy() -> impl Strategy<Value = Case> {
-    (scenario_levels(Fam::Any), port(), port(), any::<bool>(), rpc_call(), prop_oneof![3 => Just(vec![]), 1 => proptest::collection::vec((rpc_call(), any::<u16>()), 1..3)], prop::option::weighted(0.25, crate::vf::props::c03::ip_tcp_tweak())).prop_map(|(scn, sport, dport, tcp, call, pre, tweak)| Case { scn, sport, dport, tcp, call, pre, tweak })
+    (case_strategy0(), shadow_opt()).prop_map(|(mut c, sh)| {
+        c.shadow = sh;
+        c
+    })
+}
+
+fn case_strategy0() -> impl Strategy<Value = Case> {
+    (scenario_levels(Fam::Any), port(), port(), any::<bool>(), rpc_call(), prop_oneof![3 => Just(vec![]), 1 => proptest::collection::vec((rpc_call(), any::<u16>()), 1..3)], prop::option::weighted(0.25, crate::vf::props::c03::ip_tcp_tweak())).prop_map(|(scn, sport, dport, tcp, call, pre, tweak)| Case { shadow: None, scn, sport, dport, tcp, call, pre, tweak })
 }
 
 fn parse_uaddr(s: &str) -> Option<(IpAddr, u16)> {
@@ -129,6 +140,10 @@ pub fn check_reply(c: &Case, a: &[u8]) -> Check {
 }
 
 pub fn check(c: &Case, st: &mut Stats) -> Check {
+    with_shadow(&c.shadow, st, |st| check0(c, st))
+}
+
+fn check0(c: &Case, st: &mut Stats) -> Check {
     Sut::reset();
     st.eval();
     let _ambient = AmbientGuard::set(&c.tweak);
